@@ -71,7 +71,12 @@ class DUCCIO():
         # initialize final strengths on first call, if not done explicitly at construction
         with torch.no_grad():
             if self.final_strengths is None:
-                self.final_strengths = tuple(torch.maximum(torch.tensor(0.0), self.task_loss / (model.get_cost(n) - t)) for n, t in self.targets.items())
+                # a metric already at (or below) its target gets a null strength, as opposed to
+                # task_loss / 0 = inf, which would turn the regularizer into NaN forever
+                excesses = tuple(model.get_cost(n) - t for n, t in self.targets.items())
+                self.final_strengths = tuple(
+                    torch.where(e > 0, self.task_loss / e, torch.zeros_like(self.task_loss / e))
+                    for e in excesses)
 
         cost = torch.tensor(0.0)
         for (cost_name, target), strength in zip(self.targets.items(), self.final_strengths):
